@@ -307,17 +307,19 @@ def replaceSlot (cur : Reader) (u : Update) (blockNumber baseTxCount : Nat)
           let next := { target with classes := merged }
           .changed { nodes := next :: parent, length := cur.length } next
 
+/-- the empty-chain branch of `computeUpdate`: only a full block can bootstrap -/
+def bootstrap (u : Update) (blockNumber oldestPreConf : Nat) (newClasses : AMap Felt Nat) : Outcome :=
+  match u with
+  | .block ident verOk txs => bootstrapChain ident verOk txs blockNumber oldestPreConf newClasses
+  | _ => .err .bootstrapVariant
+
 /-- `computeUpdate` -/
 def computeUpdate (s : Store) (u : Update) (blockNumber baseTxCount oldestPreConf : Nat)
     (newClasses : AMap Felt Nat) : Outcome :=
-  let bootstrap : Outcome :=
-    match u with
-    | .block ident verOk txs => bootstrapChain ident verOk txs blockNumber oldestPreConf newClasses
-    | _ => .err .bootstrapVariant
   match s with
-  | none => bootstrap
+  | none => bootstrap u blockNumber oldestPreConf newClasses
   | some cur =>
-    if cur.length == 0 then bootstrap
+    if cur.length == 0 then bootstrap u blockNumber oldestPreConf newClasses
     else
       let currentOldest := cur.oldest
       if currentOldest != oldestPreConf then .err .unaligned
